@@ -123,6 +123,29 @@ struct V {
 
 impl<'ast> Visit<'ast> for V {
     fn visit_item_struct(&mut self, i: &'ast syn::ItemStruct) {
+        self.push_struct(i);
+        syn::visit::visit_item_struct(self, i);
+    }
+    fn visit_item_enum(&mut self, i: &'ast syn::ItemEnum) {
+        self.push_enum(i);
+        syn::visit::visit_item_enum(self, i);
+    }
+    fn visit_item_macro(&mut self, i: &'ast syn::ItemMacro) {
+        // `via_ty! { <item> }`: a declaration handed through a macro_rules macro that matches its field types as `$t:ty`
+        // fragments and re-emits the item unchanged (the derive then sees the types wrapped in invisible groups)
+        if i.mac.path.is_ident("via_ty") {
+            if let Ok(st) = syn::parse2::<syn::ItemStruct>(i.mac.tokens.clone()) {
+                self.push_struct(&st);
+            } else if let Ok(en) = syn::parse2::<syn::ItemEnum>(i.mac.tokens.clone()) {
+                self.push_enum(&en);
+            }
+        }
+        syn::visit::visit_item_macro(self, i);
+    }
+}
+
+impl V {
+    fn push_struct(&mut self, i: &syn::ItemStruct) {
         if derives_codec(&i.attrs) {
             let shape = match &i.fields { syn::Fields::Named(_) => "named", syn::Fields::Unnamed(_) => "tuple", syn::Fields::Unit => "unit" };
             self.out.push(format!(
@@ -130,9 +153,8 @@ impl<'ast> Visit<'ast> for V {
                 esc(&i.ident.to_string()), esc(&self.file), i.ident.span().start().line, esc(shape), esc(&toks(&i.generics)), evolution(&i.attrs), fields(&i.fields)
             ));
         }
-        syn::visit::visit_item_struct(self, i);
     }
-    fn visit_item_enum(&mut self, i: &'ast syn::ItemEnum) {
+    fn push_enum(&mut self, i: &syn::ItemEnum) {
         if derives_codec(&i.attrs) {
             let mut vs = Vec::new();
             for v in &i.variants {
@@ -147,7 +169,6 @@ impl<'ast> Visit<'ast> for V {
                 esc(&i.ident.to_string()), esc(&self.file), i.ident.span().start().line, esc(&toks(&i.generics)), has_attr(&i.attrs, "sorted_constructors"), evolution(&i.attrs), vs.join(",")
             ));
         }
-        syn::visit::visit_item_enum(self, i);
     }
 }
 
